@@ -20,6 +20,12 @@ const char *const str_v = "world";
 struct fam { int n; int data[]; };
 struct plain { int a; char b; };
 unsigned long usez(void);
+typedef int (*cb_efiapi)(int);
+typedef void (*cb_cunwind)(void);
+typedef int (*cb_thiscall)(int);
+typedef int (*cb_vectorcall)(int);
+struct cbs { int (*fld_efiapi)(int); void (*fld_cunwind)(int); cb_efiapi via_td; int (*fld_plain)(int); };
+void takes_cb(int (*par_cunwind)(int), cb_thiscall p2);
 """
 H_PLAIN = """int g_plain(int, char);
 extern long gvar;
@@ -30,7 +36,11 @@ union gu { int i; float f; };
 enum ge { GE_A, GE_B };
 """
 FLAGS_ABI = ["--generate-cstr", "--use-core", "--flexarray-dst", "--override-abi", "f_thiscall=thiscall", "--override-abi",
-             "f_vectorcall=vectorcall", "--override-abi", "f_efiapi=efiapi", "--override-abi", "f_cunwind=C-unwind"]
+             "f_vectorcall=vectorcall", "--override-abi", "f_efiapi=efiapi", "--override-abi", "f_cunwind=C-unwind",
+             # the same overrides reaching function POINTER types through the name of their typedef / field / parameter
+             "--override-abi", "cb_efiapi=efiapi", "--override-abi", "cb_cunwind=C-unwind", "--override-abi", "cb_thiscall=thiscall",
+             "--override-abi", "cb_vectorcall=vectorcall", "--override-abi", "fld_efiapi=efiapi", "--override-abi", "fld_cunwind=C-unwind",
+             "--override-abi", "par_cunwind=C-unwind"]
 FLAGS_PLAIN = ["--generate-cstr", "--use-core"]
 
 # Independent table of Rust release facts (https://doc.rust-lang.org/stable/releases.html)
